@@ -89,10 +89,24 @@ __CPROVER_ensures(instance->kind == DATA_KIND_CHUNK && instance->sink.chunk == s
  * sequence, address, block size), option bit WORD-SIZE-16 and the reserved
  * option bit; the two checksum option bits and the checksum words belong to
  * C08 (section 5 of the document) */
+/* The transmit record and the decoder report are written by CONTRACTS (of
+ * send_memory, of the decoders); a native replay runs the real functions,
+ * which do not write them.  Natively every predicate about them is vacuous;
+ * what a native replay observes is ASan/UBSan, the back-end log, the
+ * allocator ledger and the non-ghost results. */
+#if VERIF_IS_NATIVE
+#define RPP_GHOSTLY(e) 1
+#define RPP_GHOSTLY0(e) 0
+#else
+#define RPP_GHOSTLY(e) (e)
+#define RPP_GHOSTLY0(e) (e)
+#endif
+#define RPP_TX_ONE RPP_GHOSTLY(g_tx_count == __CPROVER_old(g_tx_count) + 1)
+#define RPP_TX_NONE RPP_GHOSTLY(g_tx_count == __CPROVER_old(g_tx_count))
 #define RPP_TX_GHOSTS g_tx_count, __CPROVER_object_whole(g_tx_hdr), g_tx_hs, g_tx_pl, g_tx_ps, g_tx_octet, \
                       g_tx_framing, g_tx_sink
-#define RPP_TX_FIXED(type, meta, w16, seq, addr, bs) \
-  ((unsigned)(g_tx_hdr[0] >> 4) == (unsigned)(meta) \
+#define RPP_TX_FIXED(type, meta, w16, seq, addr, bs) RPP_GHOSTLY( \
+  (unsigned)(g_tx_hdr[0] >> 4) == (unsigned)(meta) \
    && (g_tx_hdr[0] & SPEC_O_W16) == ((w16) ? SPEC_O_W16 : 0u) && (g_tx_hdr[0] & SPEC_O_RESERVED) == 0u \
    && g_tx_hdr[1] == SPEC_HDR_OCTET(1, type, 0, 0, 0, 0, 0) \
    && g_tx_hdr[2] == SPEC_HDR_OCTET(2, 0, 0, 0, seq, 0, 0) && g_tx_hdr[3] == SPEC_HDR_OCTET(3, 0, 0, 0, seq, 0, 0) \
@@ -100,9 +114,9 @@ __CPROVER_ensures(instance->kind == DATA_KIND_CHUNK && instance->sink.chunk == s
    && g_tx_hdr[6] == SPEC_HDR_OCTET(6, 0, 0, 0, 0, addr, 0) && g_tx_hdr[7] == SPEC_HDR_OCTET(7, 0, 0, 0, 0, addr, 0) \
    && g_tx_hdr[8] == SPEC_HDR_OCTET(8, 0, 0, 0, 0, 0, bs) && g_tx_hdr[9] == SPEC_HDR_OCTET(9, 0, 0, 0, 0, 0, bs) \
    && g_tx_hdr[10] == SPEC_HDR_OCTET(10, 0, 0, 0, 0, 0, bs) && g_tx_hdr[11] == SPEC_HDR_OCTET(11, 0, 0, 0, 0, 0, bs))
-#define RPP_TX_NOPAYLOAD (g_tx_pl == NULL && g_tx_ps == 0)
+#define RPP_TX_NOPAYLOAD RPP_GHOSTLY(g_tx_pl == NULL && g_tx_ps == 0)
 /* four-octet payload: the 32-bit datum, most significant octet first */
-#define RPP_TX_BE32(v) (g_tx_pl != NULL && g_tx_ps == 4u \
+#define RPP_TX_BE32(v) RPP_GHOSTLY(g_tx_pl != NULL && g_tx_ps == 4u \
    && IMPLIES(g_k < 4u, g_tx_octet == SPEC_BE32_OCTET(v, g_k)))
 #define RPP_TX_TYPE (SPEC_F_TYPE(g_tx_hdr))
 #define RPP_TX_META (SPEC_F_META(g_tx_hdr))
@@ -227,7 +241,7 @@ __CPROVER_requires((hs == 12u || hs == 14u || hs == 16u) && __CPROVER_r_ok(hdr, 
 __CPROVER_requires(pl == NULL || ps == 0 || __CPROVER_r_ok(pl, ps))
 __CPROVER_assigns(g_tx_count, __CPROVER_object_whole(g_tx_hdr), g_tx_hs, g_tx_pl, g_tx_ps, g_tx_octet,
                   g_tx_framing, g_tx_sink)
-__CPROVER_ensures(g_tx_count == __CPROVER_old(g_tx_count) + 1 && g_tx_hs == hs)
+__CPROVER_ensures(RPP_TX_ONE && g_tx_hs == hs)
 __CPROVER_ensures(RPW_HDR_COPIED(0, hdr, hs) && RPW_HDR_COPIED(1, hdr, hs) && RPW_HDR_COPIED(2, hdr, hs)
     && RPW_HDR_COPIED(3, hdr, hs) && RPW_HDR_COPIED(4, hdr, hs) && RPW_HDR_COPIED(5, hdr, hs)
     && RPW_HDR_COPIED(6, hdr, hs) && RPW_HDR_COPIED(7, hdr, hs) && RPW_HDR_COPIED(8, hdr, hs)
@@ -351,7 +365,7 @@ __CPROVER_ensures(__CPROVER_return_value.status ==
 static int send_resp_0(RegP *p, const RPFrame *frame, const RPResponse code, const unsigned int msem)
 __CPROVER_requires(RPP_RESPONDER_REQ(p, frame) && RPP_CODE_OK(code) && msem <= MSEM_16BIT)
 __CPROVER_assigns(RPP_TX_GHOSTS)
-__CPROVER_ensures(g_tx_count == __CPROVER_old(g_tx_count) + 1)
+__CPROVER_ensures(RPP_TX_ONE)
 __CPROVER_ensures(RPP_TX_FIXED(RPP_RESP_OF(frame->header.type), code, RPP_MSEM16(p, msem),
                                frame->header.sequence, frame->header.address, 0u))
 __CPROVER_ensures(RPP_TX_NOPAYLOAD)
@@ -361,7 +375,7 @@ __CPROVER_ensures(__CPROVER_return_value <= 0)
 static int send_resp_32(RegP *p, const RPFrame *frame, RPResponse code, const uint32_t pl, const unsigned int msem)
 __CPROVER_requires(RPP_RESPONDER_REQ(p, frame) && RPP_CODE_OK(code) && msem <= MSEM_16BIT)
 __CPROVER_assigns(RPP_TX_GHOSTS)
-__CPROVER_ensures(g_tx_count == __CPROVER_old(g_tx_count) + 1)
+__CPROVER_ensures(RPP_TX_ONE)
 __CPROVER_ensures(RPP_TX_FIXED(RPP_RESP_OF(frame->header.type), code, RPP_MSEM16(p, msem),
                                frame->header.sequence, frame->header.address,
                                (RPP_MSEM16(p, msem) ? 2u : 4u)))
@@ -375,12 +389,12 @@ int regp_resp_ack(RegP *p, const RPFrame *f, const void *pl, const size_t n)
 __CPROVER_requires(RPP_RESPONDER_REQ(p, f) && n <= 0xffffffffu)
 __CPROVER_requires(IMPLIES(pl == NULL, n == 0) && IMPLIES(pl != NULL && n > 0, __CPROVER_r_ok(pl, n * RPP_WS(p))))
 __CPROVER_assigns(RPP_TX_GHOSTS)
-__CPROVER_ensures(g_tx_count == __CPROVER_old(g_tx_count) + 1)
+__CPROVER_ensures(RPP_TX_ONE)
 __CPROVER_ensures(RPP_TX_FIXED(RPP_RESP_OF(f->header.type), RP_RESP_ACK, RPP_M16(p),
                                f->header.sequence, f->header.address, n))
-__CPROVER_ensures(g_tx_pl == pl && g_tx_ps == (pl != NULL ? n * RPP_WS(p) : (size_t)0))
-__CPROVER_ensures(IMPLIES(pl != NULL && g_k < n * RPP_WS(p),
-    g_tx_octet == ((const uint8_t *)pl)[BB_CL(g_k, n * RPP_WS(p))]))
+__CPROVER_ensures(RPP_GHOSTLY(g_tx_pl == pl && g_tx_ps == (pl != NULL ? n * RPP_WS(p) : (size_t)0)))
+__CPROVER_ensures(RPP_GHOSTLY(IMPLIES(pl != NULL && g_k < n * RPP_WS(p),
+    g_tx_octet == ((const uint8_t *)pl)[BB_CL(g_k, n * RPP_WS(p))])))
 __CPROVER_ensures(__CPROVER_return_value <= 0)
 ;
 
@@ -388,14 +402,14 @@ __CPROVER_ensures(__CPROVER_return_value <= 0)
 int fn(RegP *p, const RPFrame *f) \
 __CPROVER_requires(RPP_RESPONDER_REQ(p, f)) \
 __CPROVER_assigns(RPP_TX_GHOSTS) \
-__CPROVER_ensures(g_tx_count == __CPROVER_old(g_tx_count) + 1 && RPP_TX_ERR0(f, code)) \
+__CPROVER_ensures(RPP_TX_ONE && RPP_TX_ERR0(f, code)) \
 __CPROVER_ensures(__CPROVER_return_value <= 0)
 
 #define RPP_ERR32_CONTRACT(fn, code, arg) \
 int fn(RegP *p, const RPFrame *f, const uint32_t arg) \
 __CPROVER_requires(RPP_RESPONDER_REQ(p, f)) \
 __CPROVER_assigns(RPP_TX_GHOSTS) \
-__CPROVER_ensures(g_tx_count == __CPROVER_old(g_tx_count) + 1 && RPP_TX_ERR32(f, code, arg)) \
+__CPROVER_ensures(RPP_TX_ONE && RPP_TX_ERR32(f, code, arg)) \
 __CPROVER_ensures(__CPROVER_return_value <= 0)
 
 /* doc 3.1.2-3.1.4, 3.1.7, 3.1.11(EIO): no payload */
@@ -415,7 +429,7 @@ RPP_ERR32_CONTRACT(regp_resp_einvalid, RP_RESP_EINVALID, address);
 int regp_resp_meta(RegP *p, const uint_least8_t meta)
 __CPROVER_requires(RPP_P_MIN(p) && meta >= SPEC_META_MIN && meta <= SPEC_META_MAX)
 __CPROVER_assigns(RPP_TX_GHOSTS)
-__CPROVER_ensures(g_tx_count == __CPROVER_old(g_tx_count) + 1 && RPP_TX_IS_META(meta))
+__CPROVER_ensures(RPP_TX_ONE && RPP_TX_IS_META(meta))
 __CPROVER_ensures(__CPROVER_return_value <= 0)
 ;
 
@@ -424,8 +438,6 @@ __CPROVER_ensures(__CPROVER_return_value <= 0)
 
 #define RPP_CALLED (g_be_calls == __CPROVER_old(g_be_calls) + 1)
 #define RPP_NOT_CALLED (g_be_calls == __CPROVER_old(g_be_calls))
-#define RPP_TX_ONE (g_tx_count == __CPROVER_old(g_tx_count) + 1)
-#define RPP_TX_NONE (g_tx_count == __CPROVER_old(g_tx_count))
 
 int regp_process(RegP *p, const RPMaybeFrame *mf)
 __CPROVER_requires(RPP_P_MIN(p) && RPP_ALLOC_OK(p->alloc) && RPP_BACKEND_OK(p))
@@ -472,13 +484,13 @@ __CPROVER_ensures(IMPLIES(RPP_VALID(p, mf) && RPP_NOT_CALLED,
     RPP_TX_ONE && RPP_TX_ERR32(mf->frame, RP_RESP_ETXOVERFLOW, (uint32_t)RPP_TRXSIZE(p))))
 /* the back end's verdict is the response code */
 __CPROVER_ensures(IMPLIES(RPP_CALLED && g_be_status >= 0 && g_be_status <= (int)SPEC_RESP_MAX,
-    RPP_TX_ONE && RPP_TX_TYPE == RPP_RESP_OF(mf->frame->header.type) && RPP_TX_META == (unsigned)g_be_status))
+    RPP_TX_ONE && RPP_GHOSTLY(RPP_TX_TYPE == RPP_RESP_OF(mf->frame->header.type) && RPP_TX_META == (unsigned)g_be_status)))
 /* ACK of a read: the words the back end delivered, in the memory's word size */
 __CPROVER_ensures(IMPLIES(RPP_CALLED && g_be_status == RP_RESP_ACK && RPP_IS_READ(mf),
     RPP_TX_FIXED(SPEC_T_READ_RESP, RP_RESP_ACK, RPP_M16(p), mf->frame->header.sequence,
                  mf->frame->header.address, RPP_BS(mf))
-    && g_tx_pl == mf->frame->payload.data && g_tx_ps == RPP_BS(mf) * RPP_WS(p)
-    && IMPLIES(g_k < RPP_BS(mf) * RPP_WS(p), g_tx_octet == g_be_out)))
+    && RPP_GHOSTLY(g_tx_pl == mf->frame->payload.data && g_tx_ps == RPP_BS(mf) * RPP_WS(p)
+                   && IMPLIES(g_k < RPP_BS(mf) * RPP_WS(p), g_tx_octet == g_be_out))))
 /* ACK of a write: no payload */
 __CPROVER_ensures(IMPLIES(RPP_CALLED && g_be_status == RP_RESP_ACK && !RPP_IS_READ(mf),
     RPP_TX_FIXED(SPEC_T_WRITE_RESP, RP_RESP_ACK, RPP_M16(p), mf->frame->header.sequence,
@@ -724,6 +736,8 @@ __CPROVER_ensures(instance->kind == DATA_KIND_CHUNK && instance->sink.chunk == r
 /* -- is a fresh exact-size object with arbitrary content.  That the decoders */
 /* touch the sink only through its driver is an obligation of C12 / C13.      */
 
+#define RPP_DEC_RAN RPP_GHOSTLY0(g_dec_rc >= 0)
+#define RPP_DEC_FAILED RPP_GHOSTLY0(g_dec_rc < 0)
 extern int g_dec_rc;        /* what the decoder returned */
 extern int g_dec_id;        /* the sink's error id when it returned */
 extern size_t g_dec_len;    /* frame octets stored in the block (0 without block) */
@@ -770,8 +784,8 @@ __CPROVER_ensures(__CPROVER_return_value >= -0x7fffffff && __CPROVER_return_valu
  * a request is answered with the given code echoing sequence and address, a
  * header that does not parse is reported by the matching META message,
  * responses and meta messages are not answered (doc 2.1) */
-#define RPP_EARLY_ENS(hdrbuf, code) \
-  (IMPLIES((hdrbuf)->used < 12u, RPP_TX_ONE && RPP_TX_IS_META(RP_META_EHEADERENC)) \
+#define RPP_EARLY_ENS(hdrbuf, code) RPP_GHOSTLY( \
+  IMPLIES((hdrbuf)->used < 12u, RPP_TX_ONE && RPP_TX_IS_META(RP_META_EHEADERENC)) \
    && IMPLIES(RPP_TX_ONE && RPP_TX_TYPE != SPEC_T_META, \
         (hdrbuf)->used >= 12u && SPEC_T_IS_REQUEST(SPEC_F_TYPE((hdrbuf)->data)) \
         && RPP_TX_FIXED(SPEC_F_TYPE((hdrbuf)->data) == SPEC_T_READ_REQ ? SPEC_T_READ_RESP : SPEC_T_WRITE_RESP, code, 0, \
@@ -811,10 +825,10 @@ __CPROVER_ensures(RPP_EARLY_ENS(hdrbuf, RP_RESP_ERXOVERFLOW))
 #if defined(RPP_UNIT_REGP) && defined(RPP_UNIT_SINK)
 /* the reply to an early error, as visible without the receiver's local
  * fallback buffer: a response of the given code or a META report, at most one */
-#define RPP_EARLY_CLASS(code) \
+#define RPP_EARLY_CLASS(code) RPP_GHOSTLY( \
   (RPP_TX_ONE || RPP_TX_NONE) \
   && IMPLIES(RPP_TX_ONE, (SPEC_T_IS_RESPONSE(RPP_TX_TYPE) && RPP_TX_META == (unsigned)(code) && RPP_TX_NOPAYLOAD) \
-                         || RPP_TX_IS_META(RP_META_EHEADERENC) || RPP_TX_IS_META(RP_META_EHEADERCRC))
+                         || RPP_TX_IS_META(RP_META_EHEADERENC) || RPP_TX_IS_META(RP_META_EHEADERCRC)))
 
 int regp_recv(RegP *p, RPMaybeFrame *mf)
 __CPROVER_requires(RPP_P_MIN(p) && RPP_ALLOC_OK(p->alloc))
@@ -837,31 +851,31 @@ __CPROVER_ensures(IMPLIES(mf->frame != NULL, (void *)mf->frame == g_al_block))
 __CPROVER_ensures(g_dec_id == 0 || g_dec_id == EBUSY || g_dec_id == ENOMEM)
 /* --- channel error: returned unchanged, nothing handed out, nothing kept,
  *     nothing sent --- */
-__CPROVER_ensures(IMPLIES(g_dec_rc < 0,
+__CPROVER_ensures(IMPLIES(RPP_DEC_FAILED,
     __CPROVER_return_value == g_dec_rc && mf->frame == NULL && g_al_live == 0 && RPP_TX_NONE))
 /* --- allocation failure: busy reply --- */
-__CPROVER_ensures(IMPLIES(g_dec_rc >= 0 && g_dec_id == EBUSY,
+__CPROVER_ensures(IMPLIES(RPP_DEC_RAN && g_dec_id == EBUSY,
     mf->error.id == EBUSY && mf->frame == NULL && RPP_EARLY_CLASS(RP_RESP_EBUSY)))
 /* --- frame too large for the block: receive-overflow reply --- */
-__CPROVER_ensures(IMPLIES(g_dec_rc >= 0 && g_dec_id == ENOMEM,
+__CPROVER_ensures(IMPLIES(RPP_DEC_RAN && g_dec_id == ENOMEM,
     mf->error.id == ENOMEM && mf->frame != NULL && RPP_EARLY_CLASS(RP_RESP_ERXOVERFLOW)))
 /* --- a frame shorter than a header, including the empty one: bad header
  *     encoding, reported by the META message --- */
-__CPROVER_ensures(IMPLIES(g_dec_rc >= 0 && g_dec_id == 0 && g_dec_len < 12u,
+__CPROVER_ensures(IMPLIES(RPP_DEC_RAN && g_dec_id == 0 && g_dec_len < 12u,
     mf->error.id == EBADMSG && RPP_TX_ONE && RPP_TX_IS_META(RP_META_EHEADERENC)))
 /* --- otherwise the classification of the frame parser; header problems are
  *     reported by META messages, everything else is left to regp_process --- */
-__CPROVER_ensures(IMPLIES(g_dec_rc >= 0 && g_dec_id == 0,
+__CPROVER_ensures(IMPLIES(RPP_DEC_RAN && g_dec_id == 0,
     mf->error.id == 0 || mf->error.id == EBADMSG || mf->error.id == EILSEQ
     || mf->error.id == EFAULT || mf->error.id == EPROTO))
-__CPROVER_ensures(IMPLIES(g_dec_rc >= 0 && g_dec_id == 0 && mf->error.id == EBADMSG,
+__CPROVER_ensures(IMPLIES(RPP_DEC_RAN && g_dec_id == 0 && mf->error.id == EBADMSG,
     RPP_TX_ONE && RPP_TX_IS_META(RP_META_EHEADERENC)))
-__CPROVER_ensures(IMPLIES(g_dec_rc >= 0 && g_dec_id == 0 && mf->error.id == EILSEQ,
+__CPROVER_ensures(IMPLIES(RPP_DEC_RAN && g_dec_id == 0 && mf->error.id == EILSEQ,
     RPP_TX_ONE && RPP_TX_IS_META(RP_META_EHEADERCRC)))
-__CPROVER_ensures(IMPLIES(g_dec_rc >= 0 && g_dec_id == 0 && RPP_ID_PARSED(mf->error.id),
+__CPROVER_ensures(IMPLIES(RPP_DEC_RAN && g_dec_id == 0 && RPP_ID_PARSED(mf->error.id),
     RPP_TX_NONE && __CPROVER_return_value == 0 && mf->frame != NULL))
 /* --- what regp_process relies on --- */
-__CPROVER_ensures(IMPLIES(g_dec_rc >= 0 && mf->frame != NULL,
+__CPROVER_ensures(IMPLIES(RPP_DEC_RAN && mf->frame != NULL,
     IMPLIES(RPP_ID_PARSED(mf->error.id),
                RPP_HDR_PARSED(mf->frame) && mf->frame->raw.size <= p->alloc->blocksize - sizeof(RPFrame)
                && mf->frame->raw.size == g_dec_len)
